@@ -565,7 +565,7 @@ theorem lruIterGo_body (b r cur : Bytes) (hb : 124 ∉ b) :
     rw [ih (c :: cur) hb']
     simp
 
-theorem lruIter_flatten (bodies : List Bytes) (h : ∀ b ∈ bodies, 124 ∉ b) :
+theorem lruIter_flatten_bodies (bodies : List Bytes) (h : ∀ b ∈ bodies, 124 ∉ b) :
     lruIter (bodies.map (· ++ [124])).flatten = bodies.map (· ++ [124]) := by
   induction bodies with
   | nil => rfl
@@ -603,7 +603,7 @@ theorem lruIter_bytes (x : Lru17) (h : x.Wf) : lruIter x.bytes = x.stems := by
       have : 124 ∉ h := hh h hm
       simp [this]
     · exact (hr b hb).1
-  rw [Lru17.bytes, x.stems_eq, lruIter_flatten _ hbody]
+  rw [Lru17.bytes, x.stems_eq, lruIter_flatten_bodies _ hbody]
 
 /-! ### E. non-vacuity -/
 
